@@ -11,7 +11,8 @@
 uint32_t time_now(void) { return 0; }
 
 typedef struct { int id; int pad; } event_t;
-static event_t evstore[16];
+static _Alignas(16) unsigned char evstore[32 * 4096];
+static int evsize = sizeof(event_t);   /* events are evsize bytes apart (the event proper is the first sizeof(event_t) of them) */
 static fibre_eventq_t hq;
 static fibre_t yf;
 static struct { fibre_t f; uint32_t wake; } sf;
@@ -71,7 +72,7 @@ static void isr_ctx(void *arg)
 	} else {
 		event_t *e = fibre_eventq_claim(&hq);
 		if (!e) { vrt_note("claim", -1); return; }
-		vrt_note("claim", (long)(e - evstore));
+		vrt_note("claim", (long)(((unsigned char *)e - evstore) / evsize));
 		e->id = iprog[i].arg;
 		vrt_note("send", fibre_eventq_send(&hq, e));
 	}
@@ -82,7 +83,7 @@ static void reset(void)
 	vrt_clear_regions();
 	fibre_verif_reset();
 	memset(evstore, 0, sizeof(evstore));
-	fibre_eventq_init(&hq, h_body, evstore, eqdepth * sizeof(event_t), sizeof(event_t));
+	fibre_eventq_init(&hq, h_body, evstore, eqdepth * evsize, evsize);
 	fibre_init(&yf, y_body);
 	fibre_init(&sf.f, s_body);
 	sf.wake = 0;
@@ -110,7 +111,7 @@ static void reset(void)
 	vrt_region("eq_sendp", (void *)&hq.eventq.sendp, sizeof(hq.eventq.sendp), 0, 1);
 	vrt_region("eq_flags", (void *)&hq.eventq.full_flags, sizeof(hq.eventq.full_flags), 0, 1);
 	vrt_region("eq_receivep", &hq.eventq.receivep, sizeof(hq.eventq.receivep), 0, 0);
-	vrt_region("eq_slot", evstore, eqdepth * sizeof(event_t), sizeof(event_t), 2);
+	vrt_region("eq_slot", evstore, eqdepth * evsize, evsize, 2);
 	vrt_region("taint", fibre_verif_taint_flags(), sizeof(unsigned int), 0, 1);
 	printf("{\"e\":\"Reset\",\"eqdepth\":%d,\"period\":%d,\"sleeper\":%d,\"eqstart\":%d,\"aqstart\":%d,\"seq\":%d,\"main\":[", eqdepth, period, sleeper,
 	       eqroll % eqdepth, aqroll % 8, seqmark);
@@ -174,6 +175,9 @@ static void full(long seed, int nexec)
 	seqmark = 1;
 	for (int x = 0; x < nexec; x++) {
 		eqdepth = 12; period = 1 + drv_below(3); sleeper = drv_below(5) == 0;
+		/* now and then: large events in a deep queue (the buffer is longer than 64 KiB) */
+		evsize = sizeof(event_t);
+		if (drv_below(4) == 0) { evsize = 4096; eqdepth = 32; }
 		eqroll = drv_below(2) ? 0 : (int)drv_below(700);
 		aqroll = drv_below(2) ? 0 : (int)drv_below(700);
 		npass = 4 + drv_below(8);
@@ -198,6 +202,7 @@ static void full(long seed, int nexec)
 			for (int guard = 0; guard < 100 && !vrt_finished(i); guard++) if (step(i) <= 0) break;
 	}
 	seqmark = 0;
+	evsize = sizeof(event_t);
 }
 static void gen(long seed, int nexec, int irq)
 {
